@@ -222,10 +222,17 @@ def _signatures(ctx):
         n_ok[fmt] = n_ok.get(fmt, 0) + 1
         data = imgs[key]
         obs = list(res['chunks']) + [res['final']]
+        skip = False
         for i, o in enumerate(obs):
             for acc in ('format_match', 'complete'):
-                if o[acc][0] != 'value':
+                if o[acc][0] == 'unevaluable':
+                    und.setdefault(fmt, (key, sched, '%s is a term the '
+                                         'model cannot evaluate' % acc))
+                    skip = True
+                elif o[acc][0] != 'value':
                     bad_raise.setdefault(fmt, (key, sched, i, acc, o[acc]))
+        if skip:
+            continue
         # reference signature test
         if fmt == 'raw':
             want = True
